@@ -1009,6 +1009,10 @@ def run(lines, out, args):
                     got = "FAIL: `required` mutated the registry while being iterated; the lookup answered %r, neither the old %r nor the new %r" % (first, old, want)
                 elif later != want:
                     got = "FAIL: `required` mutated the registry while being iterated; afterwards %s answers %r, the registry holds %r" % (ep, later, want)
+                else:
+                    # which of the two the interrupted call answered is part of the output: C10 compares it between the twins (both
+                    # resolve `required` before they fetch the cache since repair 7ee6ae2, so both answer the new state)
+                    got = "ok interrupted=%s" % ("new" if first == want else "old")
             elif scen == "descr":
                 reg = mkreg(flavour, lambda kind, lk, compute: compute())
                 reg.register((IR,), IP, "", fac1)
